@@ -550,6 +550,65 @@ PROPS["C40"] = dict(
     level_note="Trusted: Kani/CBMC; HashMap/HashSet contract models; events restricted to the documented lifecycle.",
 )
 
+# ------------------------------------------------------------------------------------------------
+# unit "stream": S2 mount of p2panda-stream's processor / orderer units over the tokio model
+# ------------------------------------------------------------------------------------------------
+_ST = "p2panda-stream/src/"
+UNITS["stream"] = dict(
+    name="stream",
+    stage=[("repo",), ("crate", "harness/stream"), ("lock",), SYM,
+           ("mount", _ST + "processors/processor.rs", "src/staged/processor.rs", [INNER_DOCS]),
+           ("mount", _ST + "processors/composed.rs", "src/staged/composed.rs", [INNER_DOCS]),
+           ("mount", _ST + "processors/pipeline.rs", "src/staged/pipeline.rs", [INNER_DOCS]),
+           ("mount", _ST + "orderer/orderer.rs", "src/staged/orderer.rs", [INNER_DOCS]),
+           ("mount", _ST + "orderer/traits.rs", "src/staged/orderer_traits.rs", [INNER_DOCS]),
+           ("mount", _ST + "orderer/processor.rs", "src/staged/orderer_processor.rs", [INNER_DOCS, STRIP_TESTS])],
+    repo_paths=["src/staged/"],
+    mem_gb=30,
+    native_note="unit replay: the same staged units and the tokio contract model compiled natively and run with the solver's schedule",
+    functions=[(_ST + "orderer/processor.rs", "Orderer::next", r"async fn next\(&self\) -> Result<Self::Output, Self::Error>"),
+               (_ST + "orderer/orderer.rs", "CausalOrderer::next", r"pub async fn next\(&self\)"),
+               (_ST + "processors/composed.rs", "ComposedProcessors::next", r"async fn next\(&self\) -> Result<Self::Output, Self::Error>"),
+               (_ST + "processors/composed.rs", "ComposedProcessors::process", r"async fn process\(&self, input: T\)"),
+               (_ST + "processors/pipeline.rs", "Pipeline::next", r"async fn next\(&self\) -> Result<Self::Output, Self::Error>")],
+    harnesses=[
+        dict(name="c12::cancel_within_first_three_polls", prop="C12", timeout=900, encodes="Orderer::next, CausalOrderer::next",
+             bounds="the next() future is dropped after k in 0..2 polls (k symbolic), every store call pending exactly once; then a fresh next() runs to completion",
+             may_be_witness=True, witnesses=[]),
+        dict(name="c12::cancel_after_three_or_four_polls", prop="C12", timeout=900, encodes="as above", bounds="k in 3..4 (symbolic)", witnesses=[]),
+        dict(name="c12::cancel_after_five_or_six_polls", prop="C12", timeout=900, encodes="as above", bounds="k in 5..6 (symbolic)", witnesses=[]),
+        dict(name="c13::cancelled_next_loses_no_intermediate_item", prop="C13", timeout=900, encodes="ComposedProcessors::next over two FIFO processors",
+             bounds="next() dropped after k in 0..3 polls, second stage's process() pending 0..1 times, symbolic select! start index"),
+        dict(name="c13::one_item_exactly_once", prop="C13", timeout=900, encodes="PipelineBuilder::layer, Pipeline::{process,next}, ComposedProcessors::{process,next}",
+             bounds="one symbolic input, second stage delay 0..1, symbolic select! start index"),
+        dict(name="c13::two_items_exactly_once_in_order", prop="C13", tier="thorough", timeout=3000, encodes="PipelineBuilder::layer, Pipeline::{process,next}, ComposedProcessors::{process,next}",
+             bounds="two symbolic inputs, processing delays 0..1 per stage, symbolic select! start index at every loop iteration"),
+    ],
+)
+_ST_TB = ["Kani 0.68 / CBMC 6.11 / cadical",
+          "model: tokio::sync::{Mutex,Notify}, task::yield_now and a two-branch select! (symbolic start branch, losers dropped) replaced by the tokio contract model",
+          "real crates: p2panda-core, p2panda-store (traits only, default features off)"]
+PROPS["C12"] = dict(
+    units=["stream"],
+    trusted_base=_ST_TB + ["model store: one item in the ready queue; take_next_ready dequeues tentatively inside the open transaction, dropping the permit without commit rolls back (TransactionPermit::drop), every store call pends once"],
+    assumptions=["one released item", "a store call that has returned has taken effect; a dropped (pending) store call has not"],
+    bounds="cancellation at every await point of Orderer::next (k = 0..6 polls, symbolic, split over three harnesses)",
+    outside="SQLite's own atomicity; the Buffer task that does the cancelling; items with dependencies (CausalOrderer::process)",
+    level_text=("Bounded model checking of the real Orderer::next / CausalOrderer::next with the cancellation point as the symbolic variable: whichever await the future is dropped at, the released item is "
+                "returned by the next call and dequeued exactly once."),
+    level_note="Trusted: Kani/CBMC; tokio contract model; model store with rollback-on-drop transactions.",
+)
+PROPS["C13"] = dict(
+    units=["stream"],
+    trusted_base=_ST_TB + ["model processors: two-slot FIFO processors whose process() pends 0..1 times and whose next() waits while empty"],
+    assumptions=["two-stage chains, at most two items"],
+    bounds="cancellation of next() after 0..3 polls; two items without cancellation; all select! start indices and delays",
+    outside="Buffer (tokio::task::spawn_local + mpsc) and ProcessorStream::poll_next, which own a runtime task; chains longer than two stages",
+    level_text=("Bounded model checking of the real ComposedProcessors / Pipeline code: (a) dropping a next() future at any poll count must not lose the item in flight between two stages; "
+                "(b) without cancellation two items come out exactly once and in order for every select! branch order and processing delay. PARTIAL: Buffer/ProcessorStream are outside."),
+    level_note="Trusted: Kani/CBMC; tokio contract model; FIFO model processors.",
+)
+
 PROPS["C18"].update(
     level_text=("Bounded model checking of the real HybridTimestamp::increment: the solver decides the strict-increase "
                 "assertion for every 64-bit (timestamp, lamport, wall-clock) triple and for chains of two increments with "
